@@ -23,7 +23,7 @@
      seed  declarations with equal-but-not-identical keys (a member written 2-3 times), >= 256 fresh hash keys each.
      line  (SyltDetLayout) the LAYOUT of a declaration: blob / enum declarations, blob literals and case expressions whose
            members share lines in six ways (everything on one line ... one member per line), k of n members wrong in eleven
-           ways; >= 64 fresh hash keys each;
+           ways; 64 (thorough 40, TLC demands >= 32) fresh hash keys each;
      pair  (SyltDetLayout) a library of 360 programs that SHARE file names, namespace ids, global names and a misspelt name
            but differ in which near names exist / what the name is / whether it resolves: every target fresh, t,t, after each
            of its 11 one-axis neighbours, after two neighbours, after a far program - one process per history; accepted
